@@ -35,6 +35,16 @@ def generate_gen(chk, n, size, base=None):
     return cases
 
 
+def generate_forms(chk):
+    """the forms of spec/MC_Forms.tla: programs given as text with the lines they must print (computed by the specification)"""
+    r = vlib.tlc("MC_Forms", "MC_Forms.cfg")
+    chk.add_tlc(r)
+    cases = sorted(r.records, key=lambda c: (c["name"], c["src"]))
+    for i, c in enumerate(cases):
+        c.update({"id": i, "kind": "form-" + c["name"], "ctx": [], "hoist": False, "prop": "FORMS", "expect_out": c["out"], "src": "\n".join(c["src"]) + "\n", "lines": {}})
+    return cases
+
+
 def verdict_of(run):
     if run.get("panic"):
         return "panic"
